@@ -14,6 +14,8 @@ mod grep;
 mod ls;
 mod read;
 mod shell;
+#[cfg(rip_verif)]
+pub use shell::verif_capture_stream;
 mod write;
 
 #[derive(Clone, Debug)]
